@@ -12,6 +12,7 @@ import Aldy.Driver.C08
 import Aldy.Driver.C09
 import Aldy.Driver.C04
 import Aldy.Driver.C16
+import Aldy.Driver.C17
 
 /-! Line-protocol driver: one JSON object per input line (`{"op": ..., ...}`), one JSON
 object per output line.  Errors are reported as `{"error": msg}`; the driver never guesses. -/
@@ -46,6 +47,7 @@ def dispatch (j : Json) : Except String Json := do
   | "minor_build" => opMinorBuild j
   | "minor_readout" => opMinorReadout j
   | "vcf_load" => opVcfLoad j
+  | "dump" => opDump j
   | "ping" => pure (objJ [("pong", boolJ true)])
   | _ => .error s!"unknown op {op}"
 
